@@ -38,7 +38,7 @@ ASSUMPTIONS = [
     "CPython re, eval/exec and str are trusted",
 ]
 BOUNDS = {
-    "quick": {"bytes": "documents given as bytes (BOM+bytes, bytes, BOM+file): all sequences of <=2 (3 with special first two) over 14 pieces incl. U+FEFF U+FEFB U+FFFB U+FFFF U+F000 U+EFFF", "k_full": 3, "k_core": 4, "units": "<=2 all junctions, 3 with junctions {'',LF}", "rep_max": 256, "time_limit": 4},
+    "quick": {"text_sections": "<%text> bodies: every sequence of <=3 of 16 pieces that are directives / escapes / tag fragments outside the section, with and without surrounding text", "bytes": "documents given as bytes (BOM+bytes, bytes, BOM+file): all sequences of <=2 (3 with special first two) over 14 pieces incl. U+FEFF U+FEFB U+FFFB U+FFFF U+F000 U+EFFF", "k_full": 3, "k_core": 4, "units": "<=2 all junctions, 3 with junctions {'',LF}", "rep_max": 256, "time_limit": 4},
     "thorough": {"bytes": "as quick", "k_full": 4, "k_core": 5, "units": "<=2 all junctions, 3 with junctions {'',LF,CRLF}, 4 without junctions", "rep_max": 4096, "time_limit": 20},
 }
 
@@ -541,6 +541,47 @@ def unit_docs(tier, seed):
 
 
 # --------------------------------------------------------------------------
+# <%text> bodies: "the body of <%text> is emitted verbatim" - every sequence of <= 3 pieces that would be directives,
+# escapes or tag fragments outside <%text> (and repeated '<'), with text before and after the section
+
+TEXT_BODY = ["<", "<<", "<%", "</%", "</%text", "${x}", "${", "## c\n", "\n%% p\n", "\n% if x:\n", "\\\n", "<%doc>d</%doc>", "<%def name='f()'>", "a", ">", "%>"]
+
+
+def text_docs():
+    for n in (0, 1, 2, 3):
+        for w in itertools.product(TEXT_BODY, repeat=n):
+            body = "".join(w)
+            if "</%text>" in body:
+                continue
+            yield body
+
+
+def check_text_doc(body, st):
+    from mako.template import Template
+
+    st.states += 1
+    st.traces += 1
+    if body:
+        st.nontrivial += 1
+    for pre, post in (("", ""), ("p<", ">q\n")):
+        src = pre + "<%text>" + body + "</%text>" + post
+        st.evaluations += 1
+        st.transitions += 1
+        st.oracles["text-section-verbatim"] += 1
+        try:
+            got = ("ok", Template(src).render_unicode(x="X"))
+        except BaseException as e:  # noqa
+            got = ("exc", type(e).__name__ + ": " + str(e)[:100])
+        want = ("ok", pre + body + post)
+        st.outcomes[("text-section", got[0], "same" if got == want else "differs")] += 1
+        if got != want:
+            first = next((t for t in TEXT_BODY if body.startswith(t)), "")
+            st.violation("text-section:%s" % ("body not verbatim" if got[0] == "ok" else "rejected"), {"kind": "textsec", "text": body},
+                         "the body of <%text> is emitted verbatim (body starts with " + repr(first) + ")", expected=list(want), observed=list(got))
+            break
+
+
+# --------------------------------------------------------------------------
 # documents given as BYTES (with and without a UTF-8 byte-order mark), whose first characters are encoded with the
 # bytes of the mark itself (U+FEFF, U+FEFB, U+FFFB, U+FFFF) or begin with its first byte (U+F000, U+EFFF, fullwidth
 # forms): the text of the document is what the same characters give as str - nothing is dropped with the mark
@@ -604,6 +645,7 @@ def plan(tier, seed):
     for i in range(n):
         jobs.append({"kind": "time", "tier": tier, "seed": seed, "fams": fams[i::n]})
     jobs.append({"kind": "bytes", "tier": tier, "seed": seed})
+    jobs += [{"kind": "textsec", "tier": tier, "seed": seed, "shard": i, "nshards": 4} for i in range(4)]
     return jobs
 
 
@@ -664,6 +706,14 @@ def _run_job(job, st):
         st.extra["unit_docs"] = len(seen)
     elif job["kind"] == "time":
         check_family_batch([tuple(f) for f in job["fams"]], b["rep_max"], st, limit=b["time_limit"])
+    elif job["kind"] == "textsec":
+        n = 0
+        for i, body in enumerate(text_docs()):
+            if i % job["nshards"] != job["shard"]:
+                continue
+            check_text_doc(body, st)
+            n += 1
+        st.extra["text_sections"] = n
     elif job["kind"] == "bytes":
         scratch = core.scratch_dir("c01b")
         n = 0
@@ -848,6 +898,8 @@ def replay(case):
     st = Stats()
     if case["kind"] == "time":
         check_family_batch([tuple(case["family"])], 8192, st, limit=case.get("limit", 20))
+    elif case["kind"] == "textsec":
+        check_text_doc(case["text"], st)
     elif case["kind"] == "bytes":
         check_bytes_doc(case["text"], st, core.scratch_dir("c01b"))
     elif case["kind"] == "units":
